@@ -45,7 +45,7 @@ def load_findings(pid=None):
                      line)
         if not m:
             raise SystemExit('bad finding line: %r' % line)
-        if pid and m.group(1) != pid:
+        if pid and pid not in m.group(1).split(','):
             continue
         out.append({'property': m.group(1), 'id': m.group(2),
                     'match': json.loads(m.group(3)), 'text': m.group(4)})
